@@ -27,12 +27,17 @@ none of the earlier resolves / parses / dumps / constructions / failures.
    parses, add_field() in the middle; then positional / keyword / default construction and parsing again.  Values are compared by
    member name.  A fixed probe set per type / name is re-observed after the steps, so reported histories are short; each case
    carries two standalone scripts (with and without the earlier observations) that `--replay` re-executes.
+ * size-change histories (harness/u3_c14.py): structures whose array lengths are evaluated at parse time and mention `sizeof(T)` or a
+   constant after a member operand (`char body[len - sizeof(hdr)]`, `uint16 v[len / sizeof(unit_t)]`, `uint8 d[(len & 7) * K]`); between
+   parses T / K change on the same object (`hdr.add_field(...)`, `add_type("unit_t", ..., replace=True)`, re-pointing a typedef'd struct
+   name, a further `#define K`, endianness); parses before and after are compared with a new object that performed only the definitional
+   steps, so that anything a parse folds into an expression / array type is seen.
 """
 from __future__ import annotations
 
 import io
 
-from .. import defs, impl, s6_c14, t4_c14
+from .. import defs, impl, s6_c14, t4_c14, u3_c14
 from ..common import Case, Result, mkrng
 from ..structprops import rand_bytes
 
@@ -56,6 +61,9 @@ def run(env) -> Result:
                 "measured, compared, hashed, printed, assigned to, then constructed positionally / by keyword / by default and parsed, with "
                 "add_field() and failing operations in between; every observation compared with a new object that performed only the "
                 "definitional steps. "
+                "Size-change histories (u3_c14): parse-time array lengths with sizeof(T) / constants after a member operand; T grows by "
+                "add_field(), typedef'd names inside sizeof are re-pointed with replace=True, constants are re-defined, with parses before and "
+                "after, compared with a new object that performed only the definitional steps. "
                 "distinct = (history prefix); non-trivial = history of >= 3 operations")
     dc = impl.dc()
     rnd = mkrng(env["seed"], "c14")
@@ -195,6 +203,8 @@ def run(env) -> Result:
     s6_c14.run(env, res, viol, mkrng(env["seed"], "c14:s6"), 24 if tier == "quick" else 400)
     # history independence of resolve / parse / construct (alias chains re-pointed with replace=True; dumps & co. before construction)
     t4_c14.run(env, res, viol, mkrng(env["seed"], "c14:t4"), 60 if tier == "quick" else 1000, 60 if tier == "quick" else 1000)
+    # types whose size / constants change between two parses (sizeof(T) and constants in parse-time array lengths)
+    u3_c14.run(env, res, viol, mkrng(env["seed"], "c14:u3"), 60 if tier == "quick" else 1000)
     res.sample({"history_example": "construct@cs0, inplace-array@cs0/inst0, construct@cs0, endian@cs1, parse@cs1, ..."})
     return res
 
